@@ -19,9 +19,14 @@ EvKey == IsEv("Key") /\ KeyOk /\ Accept /\ UNCHANGED key
 SelOk == Ev.label = Sanitize(key) /\ Ev.selected = TRUE /\ Ev.others = 0
 EvSel == IsEv("Selected") /\ SelOk /\ Accept /\ UNCHANGED key
 
+\* the same key as a JSON field extracted by `| json` (no field list): exposed under the sanitised name with its value
+\* (msg is the line itself; a key that sanitises to "msg" overrides it)
+ExtOk == \E k \in DOMAIN Ev.names : Ev.names[k] = Sanitize(key)
+EvExt == IsEv("Extracted") /\ ExtOk /\ Ev.val = <<118>> /\ Accept /\ UNCHANGED key
 Explained == \/ Ev.ev = "Key" /\ KeyOk
              \/ Ev.ev = "Selected" /\ SelOk
+             \/ Ev.ev = "Extracted" /\ ExtOk /\ Ev.val = <<118>>
 Bad  == Reject /\ ~Explained /\ UNCHANGED key
-Next == Start \/ EvKey \/ EvSel \/ Bad \/ (Skipped /\ UNCHANGED key) \/ (Finish /\ UNCHANGED key)
+Next == Start \/ EvKey \/ EvSel \/ EvExt \/ Bad \/ (Skipped /\ UNCHANGED key) \/ (Finish /\ UNCHANGED key)
 TraceSpec == Init /\ [][Next]_vars
 =============================================================================
